@@ -122,7 +122,7 @@ func c02emit(p *Program, r *Report, rule string) {
 	}
 	r.Floor(rule, 8)
 	for _, callee := range []string{"writeFrameHeader", "Conn.writeFramePayload"} {
-		fn := p.Func(callee)
+		fn := p.FuncCallee(callee)
 		if fn == nil {
 			continue
 		}
